@@ -67,6 +67,9 @@ type Case struct {
 	// Flaky: the violation depends on a source of nondeterminism inside the implementation that the
 	// simulator does not own (Go map iteration order); replay retries until it reproduces.
 	Flaky string `json:"flaky,omitempty"`
+	// OpenKeys: the open known-finding keys that were tolerated when the violation was recorded (a replay tolerates
+	// exactly these, whatever known_findings.json says by then).
+	OpenKeys []string `json:"tolerated_known_findings,omitempty"`
 }
 
 func (c *Case) Clone() *Case {
